@@ -58,6 +58,17 @@ func (checker *TimestampChecker) IsUpToDate(t *ast.Task) (bool, error) {
 		}
 	}
 
+	// A generates entry that matches nothing means the task has to run
+	for _, g := range t.Generates {
+		if g.Negate {
+			continue
+		}
+		matches, err := glob(t.Dir, g.Glob)
+		if err != nil || len(matches) == 0 {
+			return false, nil
+		}
+	}
+
 	taskTime := time.Now()
 
 	// Compare the time of the generates and sources. If the generates are old, the task will be executed.
